@@ -25,6 +25,11 @@ const NAME_SHAPES: &[&str] = &[
     // terminal and rule names that differ in case only / equal a kind
     "Part: part Ta | Tb;\nterminals\nTa: 'a';\nTb: 'b';\npart: 'p';\n",
     "Elem: Ta Tb {Tb} | Tb {Ta};\nterminals\nTa: 'a';\nTb: 'b';\n",
+    // one field name twice in the struct of a production: the same assignment name, an assignment named like the
+    // field deduced for another reference, two references whose names differ in case only
+    "Decl: x=Item x=Item | Tb;\nItem: Ta | Tb;\nterminals\nTa: /a/;\nTb: /b/;\n",
+    "Decl: item=Arg Item | Tb;\nItem: Ta | Tb;\nArg: Ta Tb;\nterminals\nTa: /a/;\nTb: /b/;\n",
+    "Decl: Item ITEM | Tb;\nItem: Ta | Tb;\nITEM: Tb Ta;\nterminals\nTa: /a/;\nTb: /b/;\n",
 ];
 
 pub fn random_config(rng: &mut Rng, k: usize) -> SetSpec {
@@ -130,9 +135,13 @@ pub fn main(a: &Args) {
         if a.shard == 2 {
             // hand-written shapes around the names the generator derives (ProdKind = rule name + kind / P<n>)
             for text in NAME_SHAPES {
-                for _ in 0..2 {
+                for j in 0..2 {
                     k += 1;
-                    let spec = random_config(&mut rng, k);
+                    let mut spec = random_config(&mut rng, k);
+                    if j == 0 {
+                        // types and actions are deduced by the default builder only
+                        spec.builder = 0;
+                    }
                     emit(&mut krate, text, "name-shapes", &spec, &mut rep);
                 }
             }
